@@ -1230,7 +1230,12 @@ fn main() {
     let args: Vec<String> = std::env::args().collect();
     let thorough = args.get(2).map(|s| s == "thorough").unwrap_or(false);
     match args.get(1).map(|s| s.as_str()) {
-        Some("transcript") => transcript(thorough, &args[3]),
+        Some("transcript") => {
+            // the script holds recursive drivers (a serde visitor that descends into whatever arrives, derived
+            // recursive types); the corpus has inputs nested 65536 deep: give them room
+            let path = args[3].clone();
+            std::thread::Builder::new().stack_size(2 << 30).spawn(move || transcript(thorough, &path)).unwrap().join().unwrap()
+        }
         Some("skipcheck") => skipcheck(thorough),
         Some("config") => println!("{}", config_name()),
         _ => {
